@@ -67,6 +67,22 @@ Definition gain_attained_cert (pi : nat -> nat -> T) (g h : nat -> T) (d : T) : 
 (* the policy matrix is (up to ptol) the uniform distribution on its support *)
 Definition psupp (pi : nat -> nat -> T) (s a : nat) : bool := nltb n0 (pi s a).
 Definition pcount (pi : nat -> nat -> T) (s : nat) : nat := countb (nA m) (psupp pi s).
+(* the returned policy "evaluated exactly": exactly uniform on the support of the float matrix *)
+Definition upolT (pi : nat -> nat -> T) (s a : nat) : T :=
+  if psupp pi s a then n1 / nofnat (pcount pi s) else n0.
+
+(* the stationary policy pi conserves the gain and satisfies the evaluation equation of (g, h)
+   from below, in aggregate (this is what exact evaluation of a randomised policy yields):
+     g s <= sum_a pi(s,a) (P_a g) s     and     g s + h s <= sum_a pi(s,a) (r(s,a) + (P_a h) s) + d *)
+Definition gain_attained_agg (pi : nat -> nat -> T) (g h : nat -> T) (d : T) : bool :=
+  forallbn (nS m) (fun s =>
+    (g s <=? sumf (nA m) (fun a => pi s a * Ex g s a)) &&
+    (g s + h s <=? sumf (nA m) (fun a => pi s a * (Ra s a + Ex h s a)) + d)).
+
+(* positive probability only on available actions *)
+Definition c_avail (pi : nat -> nat -> T) : bool :=
+  forallbn (nS m) (fun s => forallbn (nA m) (fun a =>
+    if psupp pi s a then avail m s a else true)).
 Definition c_dist (pi : nat -> nat -> T) (ptol : T) : bool :=
   forallbn (nS m) (fun s =>
     Nat.ltb 0 (pcount pi s) &&
@@ -92,8 +108,9 @@ Record mcout := mkMC {
 Record gcert := mkGC {
   cg : nat -> T;            (* exact gain vector (harness: exact evaluation of the returned policy) *)
   cw : nat -> T;            (* dual vector w = h + M*g *)
+  ch : nat -> T;            (* exact bias of the returned policy (evaluation equation) *)
   d_up : T;                 (* slack of the dual certificate *)
-  d_lo : T;                 (* slack of bias-tightness along the policy *)
+  d_lo : T;                 (* slack of the evaluation equation along the policy *)
   c_gtol : T;               (* |state_gain - cg| *)
   c_ptol : T;
   c_itol : T
@@ -104,10 +121,15 @@ Variable o : mcout.
 Definition c16_gain_check (c : gcert) : list bool :=
   [ wfb m; neqb (gamma m) n1;
     gain_cert (cg c) (cw c) (d_up c);
-    gain_attained_cert (opi o) (cg c) (oh o) (d_lo c);
+    gain_attained_agg (upolT (opi o)) (cg c) (ch c) (d_lo c) && c_avail (opi o);
     c_close (c_gtol c) (og o) (cg c);
     c_dist (opi o) (c_ptol c);
     c_initv (c_itol c) (oig o) (og o) && c_initv (c_itol c) (oiv o) (oh o) ].
+
+(* optional, stronger (not part of the gate): every action of the support is gain-conserving and
+   bias-tight for the REPORTED bias, so every policy inside the support attains the gain *)
+Definition c16_tight_check (c : gcert) (d : T) : bool :=
+  gain_attained_cert (opi o) (cg c) (oh o) d.
 
 (* ------------------------------------------------------------------ *)
 (* discounted certificate                                              *)
@@ -150,5 +172,5 @@ End C16.
 
 Definition mk_mc {T} {NT : Num T} (g h : list T) (Pi : list (list T)) (ig iv : T) : mcout :=
   mkMC (untab g) (untab h) (untab2 Pi) ig iv.
-Definition mk_gc {T} {NT : Num T} (g w : list T) (dup dlo gt pt it : T) : gcert :=
-  mkGC (untab g) (untab w) dup dlo gt pt it.
+Definition mk_gc {T} {NT : Num T} (g w hh : list T) (dup dlo gt pt it : T) : gcert :=
+  mkGC (untab g) (untab w) (untab hh) dup dlo gt pt it.
